@@ -2005,23 +2005,30 @@ theorem mergeClusters_props (b : Buf) (s e : Nat) (hwf : WF b) (hs : b.idx ≤ s
       MergeProps (lview b) (lview b') ∧
       (b.level ≠ 2 → ∀ μ, IsMinCluster μ (lview b) → IsMinCluster μ (lview b')) ∧
       (b.level ≠ 2 → 2 ≤ e - s → SandwichUp (lview b) (b.outLen + (s - b.idx)) (b.outLen + (e - b.idx)) → NonDecr (lview b')) ∧
-      (b.level ≠ 2 → 2 ≤ e - s → SandwichDown (lview b) (b.outLen + (s - b.idx)) (b.outLen + (e - b.idx)) → NonIncr (lview b')) := by
+      (b.level ≠ 2 → 2 ≤ e - s → SandwichDown (lview b) (b.outLen + (s - b.idx)) (b.outLen + (e - b.idx)) → NonIncr (lview b')) ∧
+      (b.level ≠ 2 → 2 ≤ e - s → ∃ m, ∀ q, b.outLen + (s - b.idx) ≤ q → q < b.outLen + (e - b.idx) → cl? (lview b') q = some m) := by
   by_cases hshort : e - s < 2
-  · refine ⟨b, ?_, hwf, rfl, rfl, rfl, rfl, rfl, rfl, MergeProps.refl _, fun _ μ h => h, fun _ h => by omega, fun _ h => by omega⟩
+  · refine ⟨b, ?_, hwf, rfl, rfl, rfl, rfl, rfl, rfl, MergeProps.refl _, fun _ μ h => h, fun _ h => by omega, fun _ h => by omega,
+      fun _ h => by omega⟩
     unfold mergeClusters; simp [hshort]; rfl
   · by_cases hl : b.level = 2
     · obtain ⟨b', hb, hf⟩ := unsafeToBreak_ok b s e hwf (by omega) he
       have h1 := hf.1
       refine ⟨b', ?_, hf.wf hwf, by rw [h1], by rw [h1], by rw [h1], by rw [h1], by rw [h1], by rw [h1], hf.props,
-        fun h => absurd hl h, fun h => absurd hl h, fun h => absurd hl h⟩
+        fun h => absurd hl h, fun h => absurd hl h, fun h => absurd hl h, fun h => absurd hl h⟩
       unfold mergeClusters mergeClustersImpl
       simp only [hshort, if_false, hl, beq_self_eq_true, if_true]
       rw [hb]
     · obtain ⟨b', m, hb, hsh, hm⟩ := mergeClusters_isMerge b s e hwf hs (by omega) he hl hg
       have h1 := hsh.1
       have hSE : b.outLen + (s - b.idx) < b.outLen + (e - b.idx) := by omega
-      exact ⟨b', hb, hsh.wf hwf, by rw [h1], by rw [h1], by rw [h1], by rw [h1], by rw [h1], by rw [h1], hm.props hSE,
-        fun _ μ hμ => hm.min_kept hSE hμ, fun _ _ hsw => hm.nonDecr hSE hsw, fun _ _ hsw => hm.nonIncr hSE hsw⟩
+      refine ⟨b', hb, hsh.wf hwf, by rw [h1], by rw [h1], by rw [h1], by rw [h1], by rw [h1], by rw [h1], hm.props hSE,
+        fun _ μ hμ => hm.min_kept hSE hμ, fun _ _ hsw => hm.nonDecr hSE hsw, fun _ _ hsw => hm.nonIncr hSE hsw, ?_⟩
+      intro _ _
+      refine ⟨m, fun q h1 h2 => ?_⟩
+      have hql : q < (lview b).length := by
+        rw [lview_length b hwf]; unfold total; have := hwf.idx_le; omega
+      exact hm.cl_in (IsMerge.zone_mid h1 h2) (cl?_lt hql)
 
 /-- `merge_out_clusters(start, end)` on a range of the out-buffer, all levels -/
 theorem mergeOutClusters_props (b : Buf) (s e : Nat) (hwf : WF b) (he : e ≤ b.outLen) :
@@ -2085,6 +2092,885 @@ theorem RangePerm.of_take_drop {L0 L : List Info} {S E : Nat} (hlen : L.length =
     simp only [List.getElem?_drop] at this
     have e : E + (q - E) = q := by omega
     rwa [e] at this
+
+
+end RbModel.Buf
+
+namespace RbModel.Buf
+open RbModel.Mem
+
+/-! ## removing one glyph -/
+
+theorem cl?_eraseIdx (L : List Info) (P q : Nat) : cl? (L.eraseIdx P) q = if q < P then cl? L q else cl? L (q + 1) := by
+  unfold cl?; rw [List.getElem?_eraseIdx]; split <;> rfl
+
+theorem nonDecr_eraseIdx {L : List Info} (P : Nat) (h : NonDecr L) : NonDecr (L.eraseIdx P) := by
+  intro i j a b hij ha hb
+  rw [cl?_eraseIdx] at ha hb
+  by_cases h1 : i < P <;> by_cases h2 : j < P <;> simp only [h1, h2, if_true, if_false] at ha hb
+  · exact h i j a b hij ha hb
+  · exact h i (j + 1) a b (by omega) ha hb
+  · omega
+  · exact h (i + 1) (j + 1) a b (by omega) ha hb
+
+theorem nonIncr_eraseIdx {L : List Info} (P : Nat) (h : NonIncr L) : NonIncr (L.eraseIdx P) := by
+  intro i j a b hij ha hb
+  rw [cl?_eraseIdx] at ha hb
+  by_cases h1 : i < P <;> by_cases h2 : j < P <;> simp only [h1, h2, if_true, if_false] at ha hb
+  · exact h i j a b hij ha hb
+  · exact h i (j + 1) a b (by omega) ha hb
+  · omega
+  · exact h (i + 1) (j + 1) a b (by omega) ha hb
+
+theorem valuesSubset_eraseIdx (L : List Info) (P : Nat) : ValuesSubset (L.eraseIdx P) L := by
+  intro q v hv
+  rw [cl?_eraseIdx] at hv
+  split at hv
+  · exact ⟨q, hv⟩
+  · exact ⟨q + 1, hv⟩
+
+/-- the minimum survives the removal of a glyph unless that glyph was its only carrier -/
+theorem isMin_eraseIdx {L : List Info} {μ : Nat} (P : Nat) (hm : IsMinCluster μ L)
+    (hother : cl? L P = some μ → ∃ p, p ≠ P ∧ cl? L p = some μ) : IsMinCluster μ (L.eraseIdx P) := by
+  obtain ⟨hlow, q, hq⟩ := hm
+  constructor
+  · intro q' v hv
+    obtain ⟨p, hp⟩ := valuesSubset_eraseIdx L P q' v hv
+    exact hlow p v hp
+  · have : ∃ p, p ≠ P ∧ cl? L p = some μ := by
+      by_cases hqP : q = P
+      · subst hqP; exact hother hq
+      · exact ⟨q, hqP, hq⟩
+    obtain ⟨p, hpP, hp⟩ := this
+    by_cases h1 : p < P
+    · exact ⟨p, by rw [cl?_eraseIdx, if_pos h1]; exact hp⟩
+    · refine ⟨p - 1, ?_⟩
+      rw [cl?_eraseIdx, if_neg (by omega)]
+      have : p - 1 + 1 = p := by omega
+      rw [this]; exact hp
+
+theorem skipGlyph_seq (b : Buf) (q : Nat) (hcur : b.idx < b.len) :
+    seq b.skipGlyph q = if q < b.outLen then seq b q else seq b (q + 1) := by
+  simp only [seq, skipGlyph, outArr]
+  by_cases h1 : q < b.outLen
+  · simp only [h1, if_true]; rfl
+  · have h3 : ¬ q + 1 < b.outLen := by omega
+    simp only [h1, h3, if_false]
+    by_cases h5 : q - b.outLen < b.len - (b.idx + 1)
+    · have h6 : q + 1 - b.outLen < b.len - b.idx := by omega
+      simp only [h5, h6, if_true]
+      congr 1; omega
+    · have h6 : ¬ q + 1 - b.outLen < b.len - b.idx := by omega
+      simp only [h5, h6, if_false]
+
+theorem skipGlyph_wf (b : Buf) (hwf : WF b) (hcur : b.idx < b.len) : WF b.skipGlyph := by
+  unfold skipGlyph
+  exact ⟨by simp; omega, by simpa using hwf.len_le, hwf.sep_ok, by intro h; have := hwf.nosep_ok h; simp; omega⟩
+
+theorem skipGlyph_lview (b : Buf) (hwf : WF b) (hcur : b.idx < b.len) :
+    lview b.skipGlyph = (lview b).eraseIdx b.outLen := by
+  apply List.ext_getElem?
+  intro q
+  rw [lview_getElem? _ (skipGlyph_wf b hwf hcur), skipGlyph_seq b q hcur, List.getElem?_eraseIdx]
+  split
+  · exact (lview_getElem? b hwf q).symm
+  · exact (lview_getElem? b hwf (q + 1)).symm
+
+
+end RbModel.Buf
+
+namespace RbModel.Buf
+open RbModel.Mem
+
+/-- the ways `delete_glyph` treats the cluster of the glyph it drops -/
+theorem deleteGlyph_cases (b : Buf) (hwf : WF b) (hcur : b.idx < b.len) :
+    ∃ b1 : M Buf, b.deleteGlyph = (b1 >>= fun b1 => pure b1.skipGlyph) ∧
+      ((b1 = pure b ∧
+          ((b.idx + 1 < b.len ∧ cl? b.info (b.idx + 1) = cl? b.info b.idx) ∨
+           (b.outLen ≠ 0 ∧ cl? b.outArr (b.outLen - 1) = cl? b.info b.idx) ∨
+           (b.outLen ≠ 0 ∧ ∃ p c, cl? b.outArr (b.outLen - 1) = some p ∧ cl? b.info b.idx = some c ∧ p < c) ∨
+           (b.outLen = 0 ∧ b.len ≤ b.idx + 1))) ∨
+       (b.outLen ≠ 0 ∧ ¬ (b.idx + 1 < b.len ∧ cl? b.info (b.idx + 1) = cl? b.info b.idx) ∧
+          ∃ p c mask, cl? b.outArr (b.outLen - 1) = some p ∧ cl? b.info b.idx = some c ∧ c < p ∧
+            b1 = (relabelOutBack b.outArr p c mask b.outLen >>= fun o => pure (b.setOutArr o))) ∨
+       (b.outLen = 0 ∧ b.idx + 1 < b.len ∧ cl? b.info (b.idx + 1) ≠ cl? b.info b.idx ∧
+          b1 = b.mergeClusters b.idx (b.idx + 2))) := by
+  have hlen := hwf.len_le
+  have hcap := hwf.out_cap
+  have hi : b.idx < b.info.length := by omega
+  by_cases hn : b.idx + 1 < b.len
+  · have hi1 : b.idx + 1 < b.info.length := by omega
+    by_cases hns : b.info[b.idx].cluster = b.info[b.idx + 1].cluster
+    · refine ⟨pure b, ?_, Or.inl ⟨rfl, Or.inl ⟨hn, by rw [cl?_lt hi1, cl?_lt hi, hns]⟩⟩⟩
+      unfold deleteGlyph
+      simp only [get_ok hi, ok_bind, hn, if_true, get_ok hi1, pure_bind']
+      simp [hns]
+    · have hnsb : (b.info[b.idx].cluster == b.info[b.idx + 1].cluster) = false := by simpa using hns
+      have hnsc : ¬ (b.idx + 1 < b.len ∧ cl? b.info (b.idx + 1) = cl? b.info b.idx) := by
+        rw [cl?_lt hi1, cl?_lt hi]; intro h; exact hns (Option.some.inj h.2).symm
+      by_cases ho : b.outLen = 0
+      · have hob : (b.outLen != 0) = false := by simp [ho]
+        refine ⟨b.mergeClusters b.idx (b.idx + 2), ?_, Or.inr (Or.inr ⟨ho, hn, fun h => hnsc ⟨hn, h⟩, rfl⟩)⟩
+        unfold deleteGlyph
+        simp only [get_ok hi, ok_bind, hn, if_true, get_ok hi1, pure_bind', hnsb, Bool.not_false, Bool.true_and, hob,
+          Bool.false_eq_true, if_false, Bool.false_or, Bool.or_false]
+      · have hob : (b.outLen != 0) = true := by simp [ho]
+        have hp : b.outLen - 1 < b.outArr.length := by omega
+        by_cases hps : b.info[b.idx].cluster = b.outArr[b.outLen - 1].cluster
+        · refine ⟨pure b, ?_, Or.inl ⟨rfl, Or.inr (Or.inl ⟨ho, by rw [cl?_lt hp, cl?_lt hi, hps]⟩)⟩⟩
+          unfold deleteGlyph
+          simp only [get_ok hi, ok_bind, hn, if_true, get_ok hi1, pure_bind', hnsb, Bool.not_false, Bool.true_and, hob,
+            get_ok hp]
+          simp [hps]
+        · have hpsb : (b.info[b.idx].cluster == b.outArr[b.outLen - 1].cluster) = false := by simpa using hps
+          by_cases hlt : b.info[b.idx].cluster < b.outArr[b.outLen - 1].cluster
+          · refine ⟨(relabelOutBack b.outArr b.outArr[b.outLen - 1].cluster b.info[b.idx].cluster b.info[b.idx].mask b.outLen
+                      >>= fun o => pure (b.setOutArr o)), ?_, Or.inr (Or.inl ⟨ho, hnsc, _, _, _, cl?_lt hp, cl?_lt hi, hlt, rfl⟩)⟩
+            unfold deleteGlyph
+            simp only [get_ok hi, ok_bind, hn, if_true, get_ok hi1, pure_bind', hnsb, Bool.not_false, Bool.true_and, hob,
+              get_ok hp, hpsb, Bool.false_or, Bool.or_false, Bool.false_eq_true, if_false, hlt]
+            cases relabelOutBack b.outArr b.outArr[b.outLen - 1].cluster b.info[b.idx].cluster b.info[b.idx].mask b.outLen <;> rfl
+          · refine ⟨pure b, ?_, Or.inl ⟨rfl, Or.inr (Or.inr (Or.inl ⟨ho, _, _, cl?_lt hp, cl?_lt hi, by omega⟩))⟩⟩
+            unfold deleteGlyph
+            simp only [get_ok hi, ok_bind, hn, if_true, get_ok hi1, pure_bind', hnsb, Bool.not_false, Bool.true_and, hob,
+              get_ok hp, hpsb, Bool.false_or, Bool.or_false, Bool.false_eq_true, if_false, hlt]
+  · by_cases ho : b.outLen = 0
+    · have hob : (b.outLen != 0) = false := by simp [ho]
+      refine ⟨pure b, ?_, Or.inl ⟨rfl, Or.inr (Or.inr (Or.inr ⟨ho, by omega⟩))⟩⟩
+      unfold deleteGlyph
+      simp only [get_ok hi, ok_bind, hn, if_false, pure_bind', Bool.not_false, Bool.true_and, hob, Bool.false_eq_true,
+        Bool.false_or, Bool.or_false]
+    · have hob : (b.outLen != 0) = true := by simp [ho]
+      have hp : b.outLen - 1 < b.outArr.length := by omega
+      by_cases hps : b.info[b.idx].cluster = b.outArr[b.outLen - 1].cluster
+      · refine ⟨pure b, ?_, Or.inl ⟨rfl, Or.inr (Or.inl ⟨ho, by rw [cl?_lt hp, cl?_lt hi, hps]⟩)⟩⟩
+        unfold deleteGlyph
+        simp only [get_ok hi, ok_bind, hn, if_false, pure_bind', Bool.not_false, Bool.true_and, hob, if_true, get_ok hp]
+        simp [hps]
+      · have hpsb : (b.info[b.idx].cluster == b.outArr[b.outLen - 1].cluster) = false := by simpa using hps
+        by_cases hlt : b.info[b.idx].cluster < b.outArr[b.outLen - 1].cluster
+        · refine ⟨(relabelOutBack b.outArr b.outArr[b.outLen - 1].cluster b.info[b.idx].cluster b.info[b.idx].mask b.outLen
+                    >>= fun o => pure (b.setOutArr o)), ?_, Or.inr (Or.inl ⟨ho, by omega, _, _, _, cl?_lt hp, cl?_lt hi, hlt, rfl⟩)⟩
+          unfold deleteGlyph
+          simp only [get_ok hi, ok_bind, hn, if_false, pure_bind', Bool.not_false, Bool.true_and, hob, if_true, get_ok hp,
+            hpsb, Bool.false_or, Bool.or_false, Bool.false_eq_true, hlt]
+          cases relabelOutBack b.outArr b.outArr[b.outLen - 1].cluster b.info[b.idx].cluster b.info[b.idx].mask b.outLen <;> rfl
+        · refine ⟨pure b, ?_, Or.inl ⟨rfl, Or.inr (Or.inr (Or.inl ⟨ho, _, _, cl?_lt hp, cl?_lt hi, by omega⟩))⟩⟩
+          unfold deleteGlyph
+          simp only [get_ok hi, ok_bind, hn, if_false, pure_bind', Bool.not_false, Bool.true_and, hob, if_true, get_ok hp,
+            hpsb, Bool.false_or, Bool.or_false, Bool.false_eq_true, hlt]
+
+end RbModel.Buf
+
+namespace RbModel.Buf
+open RbModel.Mem
+
+theorem setOutArr_wf (b : Buf) (o : List Info) (hwf : WF b) (hlen : o.length = b.outArr.length) : WF (b.setOutArr o) := by
+  have h1 := hwf.idx_le; have h2 := hwf.len_le
+  cases hs : b.sepOut with
+  | true =>
+    have := hwf.sep_ok hs
+    refine ⟨by simp [setOutArr, hs]; exact h1, by simp [setOutArr, hs]; exact h2, ?_, by simp [setOutArr, hs]⟩
+    simp [setOutArr, hs]; simp [outArr, hs] at hlen; omega
+  | false =>
+    have := hwf.nosep_ok hs
+    refine ⟨by simp [setOutArr, hs]; exact h1, ?_, by simp [setOutArr, hs], by simp [setOutArr, hs]; exact this⟩
+    simp [setOutArr, hs]; simp [outArr, hs] at hlen; omega
+
+/-- rewriting the out-buffer below `out_len` only: the unconsumed input is untouched -/
+theorem setOutArr_seq (b : Buf) (o : List Info) (hwf : WF b) (hagree : ∀ q, b.outLen ≤ q → o[q]? = b.outArr[q]?) (q : Nat) :
+    seq (b.setOutArr o) q = if q < b.outLen then o[q]? else seq b q := by
+  cases hs : b.sepOut with
+  | true =>
+    simp only [seq, setOutArr, outArr, hs, if_true]
+    by_cases h1 : q < b.outLen <;> simp [h1]
+  | false =>
+    have hns := hwf.nosep_ok hs
+    simp only [seq, setOutArr, outArr, hs, Bool.false_eq_true, if_false]
+    by_cases h1 : q < b.outLen
+    · simp only [h1, if_true]
+    · simp only [h1, if_false]
+      by_cases h2 : q - b.outLen < b.len - b.idx
+      · simp only [h2, if_true]
+        have := hagree (b.idx + (q - b.outLen)) (by omega)
+        simpa [outArr, hs] using this
+      · simp only [h2, if_false]
+
+theorem setOutArr_scalars (b : Buf) (o : List Info) :
+    (b.setOutArr o).idx = b.idx ∧ (b.setOutArr o).len = b.len ∧ (b.setOutArr o).outLen = b.outLen ∧
+    (b.setOutArr o).level = b.level ∧ (b.setOutArr o).sepOut = b.sepOut ∧ (b.setOutArr o).haveOutput = b.haveOutput := by
+  cases hs : b.sepOut <;> simp [setOutArr, hs]
+
+/-- **delete_glyph**: drops the current glyph; its cluster is merged into a neighbour unless it survives anyway -/
+theorem deleteGlyph_props (b : Buf) (hwf : WF b) (hcur : b.idx < b.len) (hg : Gen.Buf.extendStartGuard = 1) :
+    ∃ b', b.deleteGlyph = .ok b' ∧ WF b' ∧ b'.idx = b.idx + 1 ∧ b'.len = b.len ∧ b'.outLen = b.outLen ∧
+      b'.level = b.level ∧ b'.sepOut = b.sepOut ∧ b'.haveOutput = b.haveOutput ∧
+      (lview b').length + 1 = (lview b).length ∧
+      ValuesSubset (lview b') (lview b) ∧
+      (NonDecr (lview b) → NonDecr (lview b')) ∧ (NonIncr (lview b) → NonIncr (lview b')) ∧
+      (b.level ≠ 2 → (lview b').length ≠ 0 → ∀ μ, IsMinCluster μ (lview b) → IsMinCluster μ (lview b')) := by
+  have hidx := hwf.idx_le
+  have hlen := hwf.len_le
+  have hcap := hwf.out_cap
+  have hi : b.idx < b.info.length := by omega
+  have hP : b.outLen < (lview b).length := by rw [lview_length b hwf]; unfold total; omega
+  have hLlen : (lview b).length = b.outLen + (b.len - b.idx) := by rw [lview_length b hwf]; rfl
+  have hclP : cl? (lview b) b.outLen = cl? b.info b.idx := by
+    rw [lview_cl_in b hwf _ (Nat.le_refl _) (by unfold total; omega)]; congr 1; omega
+  obtain ⟨b1, heq, hcase⟩ := deleteGlyph_cases b hwf hcur
+  rcases hcase with ⟨hb1, hsub⟩ | ⟨ho, hnn, p, c, mask, hp, hc, hlt, hb1⟩ | ⟨ho, hn, hne, hb1⟩
+  · -- the glyph is simply skipped
+    subst hb1
+    refine ⟨b.skipGlyph, by rw [heq]; rfl, skipGlyph_wf b hwf hcur, rfl, rfl, rfl, rfl, rfl, rfl, ?_, ?_, ?_, ?_, ?_⟩
+    · rw [skipGlyph_lview b hwf hcur, List.length_eraseIdx, if_pos hP]; omega
+    · rw [skipGlyph_lview b hwf hcur]; exact valuesSubset_eraseIdx _ _
+    · rw [skipGlyph_lview b hwf hcur]; exact nonDecr_eraseIdx _
+    · rw [skipGlyph_lview b hwf hcur]; exact nonIncr_eraseIdx _
+    · intro _ hne μ hμ
+      rw [skipGlyph_lview b hwf hcur] at hne ⊢
+      apply isMin_eraseIdx _ hμ
+      intro hPμ
+      rcases hsub with ⟨h1, h2⟩ | ⟨h1, h2⟩ | ⟨h1, p, c, hp, hc, hlt⟩ | ⟨h1, h2⟩
+      · refine ⟨b.outLen + 1, by omega, ?_⟩
+        rw [lview_cl_in b hwf _ (by omega) (by unfold total; omega), ← hPμ, hclP, ← h2]; congr 1; omega
+      · refine ⟨b.outLen - 1, by omega, ?_⟩
+        rw [lview_cl_out b hwf _ (by omega), h2, ← hclP, hPμ]
+      · exfalso
+        rw [hclP, hc] at hPμ
+        have hcμ : c = μ := Option.some.inj hPμ
+        have := hμ.1 (b.outLen - 1) p (by rw [lview_cl_out b hwf _ (by omega)]; exact hp)
+        omega
+      · exfalso; apply hne
+        rw [List.length_eraseIdx, if_pos hP, hLlen]; omega
+  · -- the cluster is merged backwards into the out-buffer
+    have hp' : b.outLen - 1 < b.outArr.length := by omega
+    obtain ⟨o, k, hr, hk, holen, hoq, hrun, hstop⟩ := relabelOutBack_spec p c mask b.outLen b.outArr hcap
+    have hk1 : k < b.outLen := by
+      rcases hstop with h | h
+      · omega
+      · by_cases h2 : k < b.outLen
+        · exact h2
+        · have : k = b.outLen := by omega
+          rw [this] at h; exact absurd hp h
+    have hb1' : b1 = pure (b.setOutArr o) := by rw [hb1, hr]; rfl
+    subst hb1'
+    have hwf1 := setOutArr_wf b o hwf holen
+    obtain ⟨s1, s2, s3, s4, s5, s6⟩ := setOutArr_scalars b o
+    have hcur1 : (b.setOutArr o).idx < (b.setOutArr o).len := by rw [s1, s2]; exact hcur
+    have hagree : ∀ q, b.outLen ≤ q → o[q]? = b.outArr[q]? := by
+      intro q hq; rw [hoq q, if_neg (by omega)]
+    -- clusters of the intermediate sequence
+    have hcl1 : ∀ q, cl? (lview (b.setOutArr o)) q = if k ≤ q ∧ q < b.outLen then some c else cl? (lview b) q := by
+      intro q
+      unfold cl?
+      rw [lview_getElem? _ hwf1, lview_getElem? _ hwf, setOutArr_seq b o hwf hagree q]
+      by_cases hq : q < b.outLen
+      · have hsq : seq b q = b.outArr[q]? := by simp [seq, hq]
+        rw [if_pos hq, hoq q, hsq]
+        by_cases hkq : k ≤ q
+        · rw [if_pos ⟨hkq, hq⟩, if_pos ⟨hkq, hq⟩]
+          have : q < b.outArr.length := by omega
+          rw [List.getElem?_eq_getElem this]; rfl
+        · rw [if_neg (by omega), if_neg (by omega)]
+      · rw [if_neg hq, if_neg (by omega)]
+    have hrunL : ∀ q, k ≤ q → q < b.outLen → cl? (lview b) q = some p := by
+      intro q h1 h2; rw [lview_cl_out b hwf q h2]; exact hrun q h1 h2
+    have hcP : cl? (lview b) b.outLen = some c := by rw [hclP]; exact hc
+    have hlen1 : (lview (b.setOutArr o)).length = (lview b).length := by
+      rw [lview_length _ hwf1, lview_length _ hwf]; unfold total; rw [s1, s2, s3]
+    have hsub1 : ValuesSubset (lview (b.setOutArr o)) (lview b) := by
+      intro q v hv
+      rw [hcl1 q] at hv
+      split at hv
+      · exact ⟨b.outLen, by rw [hcP]; exact hv⟩
+      · exact ⟨q, hv⟩
+    have hL' : lview ((b.setOutArr o).skipGlyph) = (lview (b.setOutArr o)).eraseIdx b.outLen := by
+      rw [skipGlyph_lview _ hwf1 hcur1, s3]
+    refine ⟨(b.setOutArr o).skipGlyph, by rw [heq]; rfl, skipGlyph_wf _ hwf1 hcur1, by simp [skipGlyph, s1],
+      by simp [skipGlyph, s2], by simp [skipGlyph, s3], by simp [skipGlyph, s4], by simp [skipGlyph, s5],
+      by simp [skipGlyph, s6], ?_, ?_, ?_, ?_, ?_⟩
+    · rw [hL', List.length_eraseIdx, if_pos (by rw [hlen1]; exact hP), hlen1]; omega
+    · rw [hL']; exact (valuesSubset_eraseIdx _ _).trans hsub1
+    · intro hm
+      exfalso
+      have := hm (b.outLen - 1) b.outLen p c (by omega) (hrunL _ (by omega) (by omega)) hcP
+      omega
+    · intro hm
+      rw [hL']
+      apply nonIncr_eraseIdx
+      intro i j a' b' hij ha hb
+      rw [hcl1 i] at ha; rw [hcl1 j] at hb
+      by_cases hzi : k ≤ i ∧ i < b.outLen <;> by_cases hzj : k ≤ j ∧ j < b.outLen
+      · rw [if_pos hzi] at ha; rw [if_pos hzj] at hb; cases ha; cases hb; exact Nat.le_refl _
+      · rw [if_pos hzi] at ha; rw [if_neg hzj] at hb; cases ha
+        exact hm b.outLen j c b' (by omega) hcP hb
+      · rw [if_neg hzi] at ha; rw [if_pos hzj] at hb; cases hb
+        have := hm i j a' p hij ha (hrunL j hzj.1 hzj.2)
+        omega
+      · rw [if_neg hzi] at ha; rw [if_neg hzj] at hb
+        exact hm i j a' b' hij ha hb
+    · intro _ _ μ hμ
+      rw [hL']
+      have hmin1 : IsMinCluster μ (lview (b.setOutArr o)) := by
+        obtain ⟨hlow, q, hq⟩ := hμ
+        refine ⟨fun q' v hv => ?_, q, ?_⟩
+        · obtain ⟨p', hp'⟩ := hsub1 q' v hv
+          exact hlow p' v hp'
+        · rw [hcl1 q, if_neg]
+          · exact hq
+          · intro hz
+            have h1 := hrunL q hz.1 hz.2
+            rw [hq] at h1
+            have h2 := hlow b.outLen c hcP
+            have : μ = p := Option.some.inj h1
+            omega
+      apply isMin_eraseIdx _ hmin1
+      intro _
+      refine ⟨b.outLen - 1, by omega, ?_⟩
+      rw [hcl1, if_pos (by omega)]
+      have hc' := hcl1 b.outLen
+      rw [if_neg (by omega), hcP] at hc'
+      rename_i h3
+      rw [hc'] at h3
+      rw [h3]
+  · -- nothing on the output side: merge with the next glyph
+    obtain ⟨b2, hm, hwf2, e1, e2, e3, e4, e5, e6, hprops, hmin, _, _, hunif⟩ :=
+      mergeClusters_props b b.idx (b.idx + 2) hwf (Nat.le_refl _) (by omega) hg
+    have hb1' : b1 = pure b2 := by rw [hb1, hm]; rfl
+    subst hb1'
+    have hcur2 : b2.idx < b2.len := by rw [e1, e2]; exact hcur
+    have hL' : lview b2.skipGlyph = (lview b2).eraseIdx b.outLen := by rw [skipGlyph_lview _ hwf2 hcur2, e3]
+    refine ⟨b2.skipGlyph, by rw [heq]; rfl, skipGlyph_wf _ hwf2 hcur2, by simp [skipGlyph, e1], by simp [skipGlyph, e2],
+      by simp [skipGlyph, e3], by simp [skipGlyph, e4], by simp [skipGlyph, e5], by simp [skipGlyph, e6], ?_, ?_, ?_, ?_, ?_⟩
+    · rw [hL', List.length_eraseIdx, if_pos (by rw [hprops.len]; exact hP), hprops.len]; omega
+    · rw [hL']; exact (valuesSubset_eraseIdx _ _).trans hprops.subset
+    · intro h; rw [hL']; exact nonDecr_eraseIdx _ (hprops.nonDecr h)
+    · intro h; rw [hL']; exact nonIncr_eraseIdx _ (hprops.nonIncr h)
+    · intro hl _ μ hμ
+      rw [hL']
+      apply isMin_eraseIdx _ (hmin hl μ hμ)
+      intro h0
+      obtain ⟨m, hm'⟩ := hunif hl (by omega)
+      have h1 := hm' b.outLen (by omega) (by omega)
+      have h2 := hm' (b.outLen + 1) (by omega) (by omega)
+      refine ⟨b.outLen + 1, by omega, ?_⟩
+      rw [h2, ← h1, h0]
+
+
+end RbModel.Buf
+
+namespace RbModel.Buf
+open RbModel.Mem
+
+/-! ## the streaming primitives (zipper moves) keep the cluster sequence -/
+
+theorem lview_eq_of_seq {b b' : Buf} (hwf : WF b) (hwf' : WF b') (h : ∀ q, seq b' q = seq b q) : lview b' = lview b := by
+  apply List.ext_getElem?
+  intro q
+  rw [lview_getElem? _ hwf', lview_getElem? _ hwf, h q]
+
+/-- one glyph `x` inserted at position `P` -/
+def IsInsert (L L' : List Info) (P : Nat) (x : Info) : Prop :=
+  ∀ q, L'[q]? = if q < P then L[q]? else if q = P then some x else L[q - 1]?
+
+theorem IsInsert.cl {L L' : List Info} {P : Nat} {x : Info} (h : IsInsert L L' P x) (q : Nat) :
+    cl? L' q = if q < P then cl? L q else if q = P then some x.cluster else cl? L (q - 1) := by
+  unfold cl?; rw [h q]
+  split
+  · rfl
+  · split <;> rfl
+
+/-- inserting a glyph never introduces a cluster value other than the one it carries -/
+theorem IsInsert.subset_supplied {L L' : List Info} {P : Nat} {x : Info} (h : IsInsert L L' P x) :
+    ∀ q v, cl? L' q = some v → v = x.cluster ∨ ∃ p, cl? L p = some v := by
+  intro q v hv
+  rw [h.cl q] at hv
+  split at hv
+  · exact Or.inr ⟨q, hv⟩
+  · split at hv
+    · left; exact (Option.some.inj hv).symm
+    · exact Or.inr ⟨q - 1, hv⟩
+
+/-- a copy of a neighbour's cluster (what `copy_glyph`, `output_glyph`, `replace_glyphs` insert) keeps everything -/
+theorem IsInsert.props {L L' : List Info} {P : Nat} {x : Info} (h : IsInsert L L' P x)
+    (hx : cl? L P = some x.cluster ∨ (0 < P ∧ cl? L (P - 1) = some x.cluster)) :
+    ValuesSubset L' L ∧ (NonDecr L → NonDecr L') ∧ (NonIncr L → NonIncr L') ∧
+    (∀ μ, IsMinCluster μ L → IsMinCluster μ L') := by
+  have hsub : ValuesSubset L' L := by
+    intro q v hv
+    rcases h.subset_supplied q v hv with h1 | h1
+    · subst h1
+      rcases hx with h2 | ⟨_, h2⟩
+      · exact ⟨P, h2⟩
+      · exact ⟨P - 1, h2⟩
+    · exact h1
+  -- the cluster x carries sits at position px ∈ {P-1, P} of L
+  obtain ⟨px, hpx, hpx1, hpx2⟩ : ∃ px, cl? L px = some x.cluster ∧ P ≤ px + 1 ∧ px ≤ P := by
+    rcases hx with h3 | ⟨h0, h3⟩
+    · exact ⟨P, h3, by omega, Nat.le_refl _⟩
+    · exact ⟨P - 1, h3, by omega, by omega⟩
+  refine ⟨hsub, ?_, ?_, ?_⟩
+  · intro hm i j a b hij ha hb
+    rw [h.cl i] at ha; rw [h.cl j] at hb
+    by_cases hi1 : i < P
+    · rw [if_pos hi1] at ha
+      by_cases hj1 : j < P
+      · rw [if_pos hj1] at hb; exact hm i j a b hij ha hb
+      · rw [if_neg hj1] at hb
+        by_cases hj2 : j = P
+        · rw [if_pos hj2] at hb; cases hb
+          exact hm i px a _ (by omega) ha hpx
+        · rw [if_neg hj2] at hb; exact hm i (j - 1) a b (by omega) ha hb
+    · rw [if_neg hi1] at ha
+      rw [if_neg (by omega)] at hb
+      by_cases hi2 : i = P
+      · rw [if_pos hi2] at ha; cases ha
+        by_cases hj2 : j = P
+        · rw [if_pos hj2] at hb; cases hb; exact Nat.le_refl _
+        · rw [if_neg hj2] at hb; exact hm px (j - 1) _ b (by omega) hpx hb
+      · rw [if_neg hi2] at ha; rw [if_neg (by omega)] at hb
+        exact hm (i - 1) (j - 1) a b (by omega) ha hb
+  · intro hm i j a b hij ha hb
+    rw [h.cl i] at ha; rw [h.cl j] at hb
+    by_cases hi1 : i < P
+    · rw [if_pos hi1] at ha
+      by_cases hj1 : j < P
+      · rw [if_pos hj1] at hb; exact hm i j a b hij ha hb
+      · rw [if_neg hj1] at hb
+        by_cases hj2 : j = P
+        · rw [if_pos hj2] at hb; cases hb
+          exact hm i px a _ (by omega) ha hpx
+        · rw [if_neg hj2] at hb; exact hm i (j - 1) a b (by omega) ha hb
+    · rw [if_neg hi1] at ha
+      rw [if_neg (by omega)] at hb
+      by_cases hi2 : i = P
+      · rw [if_pos hi2] at ha; cases ha
+        by_cases hj2 : j = P
+        · rw [if_pos hj2] at hb; cases hb; exact Nat.le_refl _
+        · rw [if_neg hj2] at hb; exact hm px (j - 1) _ b (by omega) hpx hb
+      · rw [if_neg hi2] at ha; rw [if_neg (by omega)] at hb
+        exact hm (i - 1) (j - 1) a b (by omega) ha hb
+  · intro μ ⟨hlow, q, hq⟩
+    refine ⟨fun q' v hv => ?_, ?_⟩
+    · obtain ⟨p, hp⟩ := hsub q' v hv
+      exact hlow p v hp
+    · by_cases h1 : q < P
+      · exact ⟨q, by rw [h.cl q, if_pos h1]; exact hq⟩
+      · refine ⟨q + 1, ?_⟩
+        rw [h.cl (q + 1), if_neg (by omega), if_neg (by omega)]
+        exact hq
+
+
+end RbModel.Buf
+
+namespace RbModel.Buf
+open RbModel.Mem
+
+/-- what a primitive that adds no cluster value guarantees about the logical sequence -/
+structure KeepProps (L L' : List Info) : Prop where
+  subset : ValuesSubset L' L
+  nonDecr : NonDecr L → NonDecr L'
+  nonIncr : NonIncr L → NonIncr L'
+  min : ∀ μ, IsMinCluster μ L → IsMinCluster μ L'
+
+theorem KeepProps.of_cl_eq {L L' : List Info} (h : ∀ q, cl? L' q = cl? L q) : KeepProps L L' :=
+  ⟨valuesSubset_of_cl_eq h, nonDecr_of_cl_eq h, nonIncr_of_cl_eq h, fun _ => isMin_of_cl_eq h⟩
+
+theorem KeepProps.of_eq {L L' : List Info} (h : L' = L) : KeepProps L L' := by
+  subst h; exact KeepProps.of_cl_eq (fun _ => rfl)
+
+theorem lview_budget_failure (b : Buf) : lview { b with successful := false } = lview b := rfl
+
+theorem Inv.budget_failure {b : Buf} (h : Inv b) : Inv { b with successful := false } :=
+  ⟨h.idx_le, h.len_le, h.out_len, h.sep_ok, h.nosep_ok, h.have_out⟩
+
+/-- `next_glyph`: the cluster sequence is unchanged -/
+theorem nextGlyph_keep (b : Buf) (hinv : Inv b) (hcur : b.idx < b.len) (hg : Gen.Buf.ensureGrowOnly = true) :
+    ∃ b', b.nextGlyph = .ok b' ∧ Inv b' ∧ lview b' = lview b := by
+  obtain ⟨b', h, hc⟩ := nextGlyph_spec b hinv hcur hg
+  rcases hc with hf | ⟨hinv', _, _, _, _, hseq⟩
+  · subst hf; exact ⟨_, h, hinv.budget_failure, rfl⟩
+  · exact ⟨b', h, hinv', lview_eq_of_seq (WF.of_inv hinv) (WF.of_inv hinv') hseq⟩
+
+theorem nextGlyphs_keep (b : Buf) (n : Nat) (hinv : Inv b) (hn : b.idx + n ≤ b.len) (hg : Gen.Buf.ensureGrowOnly = true) :
+    ∃ b', b.nextGlyphs n = .ok b' ∧ Inv b' ∧ lview b' = lview b := by
+  obtain ⟨b', h, hc⟩ := nextGlyphs_spec b n hinv hn hg
+  rcases hc with hf | ⟨hinv', _, _, _, _, hseq⟩
+  · subst hf; exact ⟨_, h, hinv.budget_failure, rfl⟩
+  · exact ⟨b', h, hinv', lview_eq_of_seq (WF.of_inv hinv) (WF.of_inv hinv') hseq⟩
+
+theorem moveTo_keep (b : Buf) (i : Nat) (hinv : Inv b) (hi : i ≤ total b)
+    (hg : Gen.Buf.ensureGrowOnly = true) (hr : Gen.Buf.moveToRewindReversed = true) :
+    ∃ b' r, b.moveTo i = .ok (b', r) ∧ (r = false → b'.successful = false) ∧ (r = true → Inv b' ∧ lview b' = lview b) := by
+  obtain ⟨b', r, h, hf, ht⟩ := moveTo_spec b i hinv hi hg hr
+  refine ⟨b', r, h, hf, fun hr' => ?_⟩
+  obtain ⟨hinv', _, _, hseq, _⟩ := ht hr'
+  exact ⟨hinv', lview_eq_of_seq (WF.of_inv hinv) (WF.of_inv hinv') hseq⟩
+
+theorem replaceGlyph_keep (b : Buf) (g : Nat) (hinv : Inv b) (hcur : b.idx < b.len) (hg : Gen.Buf.ensureGrowOnly = true) :
+    ∃ b', b.replaceGlyph g = .ok b' ∧ Inv b' ∧ (∀ q, cl? (lview b') q = cl? (lview b) q) := by
+  obtain ⟨b', h, hc⟩ := replaceGlyph_spec b g hinv hcur hg
+  rcases hc with hf | ⟨hinv', _, _, _, _, x, hx, hseq⟩
+  · subst hf; exact ⟨_, h, hinv.budget_failure, fun _ => rfl⟩
+  · refine ⟨b', h, hinv', fun q => ?_⟩
+    unfold cl?
+    rw [lview_getElem? _ (WF.of_inv hinv'), lview_getElem? _ (WF.of_inv hinv), hseq q]
+    by_cases hq : q = b.outLen
+    · subst hq
+      rw [if_pos rfl, seq_at_outLen b hcur, hx]; rfl
+    · rw [if_neg hq]
+
+theorem copyGlyph_keep (b : Buf) (hinv : Inv b) (hcur : b.idx < b.len) (hg : Gen.Buf.ensureGrowOnly = true) :
+    ∃ b', b.copyGlyph = .ok b' ∧ Inv b' ∧ KeepProps (lview b) (lview b') := by
+  have hwf := WF.of_inv hinv
+  obtain ⟨b', h, hc⟩ := copyGlyph_spec b hinv hcur hg
+  rcases hc with hf | ⟨hinv', _, _, _, _, hseq⟩
+  · subst hf; exact ⟨_, h, hinv.budget_failure, KeepProps.of_eq rfl⟩
+  · have hil : b.idx < b.info.length := by have := hinv.len_le; omega
+    have hx : b.info[b.idx]? = some b.info[b.idx] := List.getElem?_eq_getElem hil
+    have hins : IsInsert (lview b) (lview b') b.outLen b.info[b.idx] := by
+      intro q
+      rw [lview_getElem? _ (WF.of_inv hinv'), hseq q, hx]
+      split
+      · exact (lview_getElem? b hwf q).symm
+      · split
+        · rfl
+        · exact (lview_getElem? b hwf (q - 1)).symm
+    have hcl : cl? (lview b) b.outLen = some b.info[b.idx].cluster := by
+      unfold cl?; rw [lview_getElem? b hwf, seq_at_outLen b hcur, hx]; rfl
+    obtain ⟨p1, p2, p3, p4⟩ := hins.props (Or.inl hcl)
+    exact ⟨b', h, hinv', ⟨p1, p2, p3, p4⟩⟩
+
+theorem outputInfo_keep (b : Buf) (x : Info) (hinv : Inv b) (hg : Gen.Buf.ensureGrowOnly = true) :
+    ∃ b', b.outputInfo x = .ok b' ∧ Inv b' ∧
+      ∀ q v, cl? (lview b') q = some v → v = x.cluster ∨ ∃ p, cl? (lview b) p = some v := by
+  have hwf := WF.of_inv hinv
+  obtain ⟨b', h, hc⟩ := outputInfo_spec b x hinv hg
+  rcases hc with hf | ⟨hinv', _, _, _, _, hseq⟩
+  · subst hf; exact ⟨_, h, hinv.budget_failure, fun q v hv => Or.inr ⟨q, hv⟩⟩
+  · have hins : IsInsert (lview b) (lview b') b.outLen x := by
+      intro q
+      rw [lview_getElem? _ (WF.of_inv hinv'), hseq q]
+      split
+      · exact (lview_getElem? b hwf q).symm
+      · split
+        · rfl
+        · exact (lview_getElem? b hwf (q - 1)).symm
+    exact ⟨b', h, hinv', hins.subset_supplied⟩
+
+theorem outputGlyph_empty (b : Buf) (g : Nat) (hinv : Inv b) (hg : Gen.Buf.ensureGrowOnly = true) (h1 : b.idx = b.len)
+    (h2 : b.outLen = 0) (b' : Buf) (h : b.outputGlyph g = .ok b') : b'.successful = false ∨ b'.outLen = 0 := by
+  unfold outputGlyph at h
+  rcases insert_spec b hinv hg with hfail | ⟨b1, hok, ho, hi, hl, _⟩
+  · simp only [hfail, ok_bind, Bool.not_false, if_true] at h
+    cases h; exact Or.inl rfl
+  · have hc : (b1.idx == b1.len && b1.outLen == 0) = true := by simp [hi, hl, ho, h1, h2]
+    simp only [hok, ok_bind, Bool.not_true, Bool.false_eq_true, if_false, hc, if_true] at h
+    cases h; right; rw [ho, h2]
+
+theorem outputGlyph_keep (b : Buf) (g : Nat) (hinv : Inv b) (hg : Gen.Buf.ensureGrowOnly = true) :
+    ∃ b', b.outputGlyph g = .ok b' ∧ (b'.successful = false ∨ KeepProps (lview b) (lview b')) := by
+  have hwf := WF.of_inv hinv
+  have hidx := hinv.idx_le
+  have hlen := hinv.len_le
+  obtain ⟨b', h, hc⟩ := outputGlyph_spec b g hinv hg
+  refine ⟨b', h, ?_⟩
+  rcases hc with hf | ⟨h1, h2, hseq, ho, hi, hl⟩ | ⟨hinv', _, _, _, _, x, hx, hseq⟩
+  · exact Or.inl hf
+  · -- empty buffer: nothing happens; the logical sequence is empty before and after
+    right
+    have e1 : lview b = [] := by simp [lview, h1, h2]
+    have e2 : lview b' = [] := by simp [lview, ho, hi, hl, h1]
+    exact KeepProps.of_eq (by rw [e1, e2])
+  · rename_i hol _ _ _
+    by_cases hemp : b.idx = b.len ∧ b.outLen = 0
+    · rcases outputGlyph_empty b g hinv hg hemp.1 hemp.2 b' h with hf | hz
+      · exact Or.inl hf
+      · omega
+    right
+    have hins : IsInsert (lview b) (lview b') b.outLen { x with gid := g } := by
+      intro q
+      rw [lview_getElem? _ (WF.of_inv hinv'), hseq q]
+      split
+      · exact (lview_getElem? b hwf q).symm
+      · split
+        · rfl
+        · exact (lview_getElem? b hwf (q - 1)).symm
+    have hxc : cl? (lview b) b.outLen = some x.cluster ∨ (0 < b.outLen ∧ cl? (lview b) (b.outLen - 1) = some x.cluster) := by
+      by_cases hcur : b.idx < b.len
+      · left
+        rw [if_pos hcur] at hx
+        unfold cl?; rw [lview_getElem? b hwf, seq_at_outLen b hcur, hx]; rfl
+      · rw [if_neg hcur] at hx
+        have ho : 0 < b.outLen := by
+          by_cases h0 : b.outLen = 0
+          · exact absurd ⟨by omega, h0⟩ hemp
+          · omega
+        right
+        refine ⟨ho, ?_⟩
+        rw [lview_cl_out b hwf _ (by omega)]
+        unfold cl?; rw [hx]; rfl
+    obtain ⟨p1, p2, p3, p4⟩ := hins.props hxc
+    exact ⟨p1, p2, p3, p4⟩
+
+theorem sync_keep (b : Buf) (hinv : Inv b) (hg : Gen.Buf.ensureGrowOnly = true) :
+    ∃ b' r, b.sync = .ok (b', r) ∧ (b'.successful = false ∨ (WF b' ∧ b'.idx = 0 ∧ b'.outLen = 0 ∧ lview b' = lview b)) := by
+  have hwf := WF.of_inv hinv
+  obtain ⟨b', r, h, hc⟩ := sync_spec b hinv hg
+  refine ⟨b', r, h, ?_⟩
+  rcases hc with hf | ⟨_, hl, hi, ho, _, hs, hle, _, hq⟩
+  · exact Or.inl hf
+  · right
+    have hwf' : WF b' := ⟨by omega, hle, fun h => (by rw [hs] at h; cases h), fun _ => (by omega)⟩
+    refine ⟨hwf', hi, ho, ?_⟩
+    apply List.ext_getElem?
+    intro q
+    rw [lview_getElem? _ hwf', lview_getElem? _ hwf]
+    by_cases h1 : q < b'.len
+    · rw [← hq q h1]
+      simp [seq, ho, hi, h1]
+    · have : seq b' q = none := by simp [seq, ho, hi, h1]
+      rw [this]
+      symm
+      rw [← lview_getElem? b hwf]
+      apply List.getElem?_eq_none
+      rw [lview_length b hwf]; omega
+
+
+end RbModel.Buf
+
+namespace RbModel.Buf
+open RbModel.Mem
+
+/-! ## in-place mode: reversals -/
+
+/-- in-place mode: nothing on the output side, the logical sequence is `info[0..len)` -/
+structure InPlace (b : Buf) : Prop where
+  idx0 : b.idx = 0
+  out0 : b.outLen = 0
+  len_le : b.len ≤ b.info.length
+
+theorem InPlace.wf {b : Buf} (h : InPlace b) : WF b :=
+  ⟨by rw [h.idx0]; omega, h.len_le, fun _ => by rw [h.out0]; omega, fun _ => by rw [h.out0]; omega⟩
+
+theorem InPlace.lview {b : Buf} (h : InPlace b) : Buf.lview b = b.info.take b.len := by
+  unfold Buf.lview; rw [h.idx0, h.out0]; simp
+
+theorem cl?_reverse (L : List Info) (q : Nat) (hq : q < L.length) : cl? L.reverse q = cl? L (L.length - 1 - q) := by
+  unfold cl?; rw [List.getElem?_reverse hq]
+
+theorem nonIncr_reverse {L : List Info} (h : NonDecr L) : NonIncr L.reverse := by
+  intro i j a b hij ha hb
+  have hj := cl?_some_lt hb; have hi := cl?_some_lt ha
+  rw [List.length_reverse] at hi hj
+  rw [cl?_reverse L i hi] at ha; rw [cl?_reverse L j hj] at hb
+  exact h _ _ b a (by omega) hb ha
+
+theorem nonDecr_reverse {L : List Info} (h : NonIncr L) : NonDecr L.reverse := by
+  intro i j a b hij ha hb
+  have hj := cl?_some_lt hb; have hi := cl?_some_lt ha
+  rw [List.length_reverse] at hi hj
+  rw [cl?_reverse L i hi] at ha; rw [cl?_reverse L j hj] at hb
+  exact h _ _ b a (by omega) hb ha
+
+theorem valuesSubset_reverse (L : List Info) : ValuesSubset L.reverse L := by
+  intro q v hv
+  have hq := cl?_some_lt hv
+  rw [List.length_reverse] at hq
+  rw [cl?_reverse L q hq] at hv
+  exact ⟨_, hv⟩
+
+theorem isMin_reverse {L : List Info} {μ : Nat} (h : IsMinCluster μ L) : IsMinCluster μ L.reverse := by
+  obtain ⟨hlow, q, hq⟩ := h
+  refine ⟨fun q' v hv => ?_, ?_⟩
+  · obtain ⟨p, hp⟩ := valuesSubset_reverse L q' v hv
+    exact hlow p v hp
+  · have hql := cl?_some_lt hq
+    refine ⟨L.length - 1 - q, ?_⟩
+    rw [cl?_reverse L _ (by omega)]
+    have : L.length - 1 - (L.length - 1 - q) = q := by omega
+    rw [this]; exact hq
+
+/-- `reverse_range(start, end)` reverses that slice of the Vec -/
+theorem reverseRange_spec (b : Buf) (s e : Nat) (hse : s ≤ e) (he : e ≤ b.info.length) :
+    ∃ I, b.reverseRange s e = .ok { b with info := I } ∧
+      I = b.info.take s ++ ((b.info.drop s).take (e - s)).reverse ++ b.info.drop e ∧ I.length = b.info.length := by
+  unfold reverseRange
+  by_cases hshort : e - s < 2
+  · refine ⟨b.info, by simp [hshort]; rfl, ?_, rfl⟩
+    -- a slice of length ≤ 1 is its own reverse
+    have hl : ((b.info.drop s).take (e - s)).length ≤ 1 := by simp; omega
+    have hrev : ((b.info.drop s).take (e - s)).reverse = (b.info.drop s).take (e - s) := by
+      generalize (b.info.drop s).take (e - s) = l at hl
+      match l, hl with
+      | [], _ => rfl
+      | [x], _ => rfl
+    rw [hrev]
+    have : List.drop e b.info = List.drop (e - s) (List.drop s b.info) := by
+      rw [List.drop_drop]; congr 1; omega
+    rw [this, List.append_assoc, List.take_append_drop, List.take_append_drop]
+  · have hc : (decide (s > e) || decide (e > b.info.length)) = false := by
+      simp only [Bool.or_eq_false_iff, decide_eq_false_iff_not]; omega
+    refine ⟨_, ?_, rfl, ?_⟩
+    · simp only [hshort, if_false, revSlice, hc, Bool.false_eq_true, pure_bind']
+      rfl
+    · simp; omega
+
+theorem reverse_spec (b : Buf) (hin : InPlace b) :
+    ∃ b', b.reverse = .ok b' ∧ InPlace b' ∧ b'.len = b.len ∧ b'.level = b.level ∧ lview b' = (lview b).reverse := by
+  unfold Buf.reverse
+  by_cases h0 : b.len = 0
+  · refine ⟨b, by simp [h0]; rfl, hin, rfl, rfl, ?_⟩
+    rw [hin.lview, h0]; rfl
+  · obtain ⟨I, hr, hI, hIl⟩ := reverseRange_spec b 0 b.len (by omega) hin.len_le
+    have hb0 : (b.len == 0) = false := by simpa using h0
+    have hin' : InPlace { b with info := I } := ⟨hin.idx0, hin.out0, by simp; rw [hIl]; exact hin.len_le⟩
+    refine ⟨{ b with info := I }, by simp only [hb0, Bool.false_eq_true, if_false]; exact hr, hin', rfl, rfl, ?_⟩
+    rw [hin'.lview, hin.lview]
+    simp only
+    rw [hI]
+    simp only [List.take_zero, List.nil_append, List.drop_zero, Nat.sub_zero]
+    have hle := hin.len_le
+    have hl1 : ((b.info.take b.len).reverse).length = b.len := by simp; omega
+    rw [List.take_append_of_le_length (by omega)]
+    rw [List.take_of_length_le (by omega)]
+
+
+end RbModel.Buf
+
+namespace RbModel.Buf
+open RbModel.Mem
+
+theorem KeepProps.trans {A B C : List Info} (h1 : KeepProps A B) (h2 : KeepProps B C) : KeepProps A C :=
+  ⟨h2.subset.trans h1.subset, fun h => h2.nonDecr (h1.nonDecr h), fun h => h2.nonIncr (h1.nonIncr h),
+   fun μ h => h2.min μ (h1.min μ h)⟩
+
+theorem KeepProps.refl (L : List Info) : KeepProps L L := KeepProps.of_eq rfl
+
+theorem cl?_take (l : List Info) (n q : Nat) : cl? (l.take n) q = if q < n then cl? l q else none := by
+  unfold cl?; rw [List.getElem?_take]; split <;> rfl
+
+/-- reversing a slice whose records all carry one cluster does not change the cluster sequence of the Vec -/
+theorem reverseRange_uniform (b : Buf) (s e c : Nat) (hse : s ≤ e) (he : e ≤ b.info.length)
+    (hu : ∀ q v, s ≤ q → q < e → cl? b.info q = some v → v = c) :
+    ∃ I, b.reverseRange s e = .ok { b with info := I } ∧ I.length = b.info.length ∧ RangePerm b.info I s e ∧
+      ∀ q, cl? I q = cl? b.info q := by
+  obtain ⟨I, hr, hI, hIl⟩ := reverseRange_spec b s e hse he
+  have hts : (b.info.take s).length = s := by simp; omega
+  have hsl : ((b.info.drop s).take (e - s)).length = e - s := by simp; omega
+  have hp : RangePerm b.info I s e := by
+    apply RangePerm.of_take_drop hIl
+    · rw [hI, List.append_assoc, List.take_append_of_le_length (by omega), List.take_of_length_le (by omega)]
+    · rw [hI, List.drop_append_of_le_length (by simp; omega), List.drop_of_length_le (by simp; omega)]
+      simp
+    · rw [hI, List.append_assoc, List.drop_append_of_le_length (by omega), List.drop_of_length_le (by omega)]
+      simp only [List.nil_append]
+      rw [List.take_append_of_le_length (by simp; omega), List.take_of_length_le (by simp; omega)]
+      exact List.reverse_perm _
+  exact ⟨I, hr, hIl, hp, hp.cl_eq_of_uniform hu⟩
+
+/-- one group of `reverse_groups(…, merge_clusters = true)`: merge the group, then reverse it -/
+theorem mergeThenReverse (b : Buf) (s e : Nat) (hin : InPlace b) (hse : s ≤ e) (he : e ≤ b.len) (hl : b.level ≠ 2)
+    (hg : Gen.Buf.extendStartGuard = 1) :
+    ∃ b', (b.mergeClusters s e >>= fun b1 => b1.reverseRange s e) = .ok b' ∧ InPlace b' ∧ b'.len = b.len ∧
+      b'.level = b.level ∧ KeepProps (lview b) (lview b') := by
+  have hwf := hin.wf
+  obtain ⟨b1, hm, hwf1, e1, e2, e3, e4, _, _, hprops, hmin, _, _, hunif⟩ :=
+    mergeClusters_props b s e hwf (by rw [hin.idx0]; omega) he hg
+  have hin1 : InPlace b1 := ⟨by rw [e1]; exact hin.idx0, by rw [e3]; exact hin.out0, hwf1.len_le⟩
+  have hk1 : KeepProps (lview b) (lview b1) := ⟨hprops.subset, hprops.nonDecr, hprops.nonIncr, hmin hl⟩
+  rw [hm]
+  simp only [ok_bind]
+  by_cases hshort : e - s < 2
+  · refine ⟨b1, ?_, hin1, e2, e4, hk1⟩
+    unfold reverseRange; simp [hshort]; rfl
+  · obtain ⟨m, hm'⟩ := hunif hl (by omega)
+    have hu : ∀ q v, s ≤ q → q < e → cl? b1.info q = some v → v = m := by
+      intro q v h1 h2 hv
+      have := hm' q (by rw [hin.out0, hin.idx0]; omega) (by rw [hin.out0, hin.idx0]; omega)
+      rw [hin1.lview, cl?_take, if_pos (by rw [e2]; omega), hv] at this
+      exact Option.some.inj this
+    obtain ⟨I, hr, hIl, _, hcl⟩ := reverseRange_uniform b1 s e m hse (by have := hin1.len_le; rw [e2] at this; omega) hu
+    have hin2 : InPlace { b1 with info := I } := ⟨hin1.idx0, hin1.out0, by simp; rw [hIl]; exact hin1.len_le⟩
+    refine ⟨_, hr, hin2, e2, e4, hk1.trans (KeepProps.of_cl_eq ?_)⟩
+    intro q
+    rw [hin2.lview, hin1.lview, cl?_take, cl?_take]
+    simp only
+    rw [hcl q]
+
+theorem revGroupsLoop_merge (hg : Gen.Buf.extendStartGuard = 1) : ∀ (fuel : Nat) (b : Buf) (start i : Nat),
+    InPlace b → b.level ≠ 2 → start ≤ i → 1 ≤ i → i ≤ b.len →
+    ∃ b' s' i', revGroupsLoop true b start i fuel = .ok (b', s', i') ∧ InPlace b' ∧ b'.len = b.len ∧
+      b'.level = b.level ∧ s' ≤ i' ∧ i' ≤ b.len ∧ KeepProps (lview b) (lview b') := by
+  intro fuel
+  induction fuel with
+  | zero =>
+    intro b start i hin _ h1 _ h3
+    exact ⟨b, start, i, rfl, hin, rfl, rfl, h1, h3, KeepProps.refl _⟩
+  | succ fuel ih =>
+    intro b start i hin hl h1 h2 h3
+    by_cases hi : i < b.len
+    · have hle := hin.len_le
+      have hi0 : ¬ i = 0 := by omega
+      have ha : i - 1 < b.info.length := by omega
+      have hc : i < b.info.length := by omega
+      simp only [revGroupsLoop, hi, if_true, hi0, if_false, get_ok ha, get_ok hc, ok_bind]
+      by_cases hcont : isContinuation b.info[i] = true
+      · simp only [hcont, Bool.not_true, Bool.false_eq_true, if_false]
+        exact ih b start (i + 1) hin hl (by omega) (by omega) (by omega)
+      · have : (!isContinuation b.info[i]) = true := by simpa using hcont
+        simp only [this, if_true]
+        obtain ⟨b1, hb1, hin1, e2, e4, hk⟩ := mergeThenReverse b start i hin h1 (by omega) hl hg
+        have hb1' : (b.mergeClusters start i >>= fun b1 => b1.reverseRange start i) = .ok b1 := hb1
+        cases hm : b.mergeClusters start i with
+        | error err => rw [hm] at hb1'; cases hb1'
+        | ok bm =>
+          rw [hm] at hb1'
+          simp only [ok_bind] at hb1' ⊢
+          rw [hb1']
+          simp only [ok_bind]
+          obtain ⟨b', s', i', hr, hin', l', lv', hs', hi', hk'⟩ :=
+            ih b1 i (i + 1) hin1 (by rw [e4]; exact hl) (by omega) (by omega) (by rw [e2]; omega)
+          exact ⟨b', s', i', hr, hin', by rw [l', e2], by rw [lv', e4], hs', by rw [← e2]; exact hi', hk.trans hk'⟩
+    · refine ⟨b, start, i, ?_, hin, rfl, rfl, h1, h3, KeepProps.refl _⟩
+      simp only [revGroupsLoop, hi, if_false]; rfl
+
+/-- **reverse_groups with merging (cluster level 1)**: whatever the groups are, a monotone cluster sequence comes out
+    monotone in the opposite sense, with the same values and the same minimum -/
+theorem reverseGroupsG_merge_props (b : Buf) (hin : InPlace b) (hl : b.level ≠ 2) (hg : Gen.Buf.extendStartGuard = 1) :
+    ∃ b', b.reverseGroupsG true = .ok b' ∧ InPlace b' ∧ b'.len = b.len ∧
+      ValuesSubset (lview b') (lview b) ∧
+      (NonDecr (lview b) → NonIncr (lview b')) ∧ (NonIncr (lview b) → NonDecr (lview b')) ∧
+      (∀ μ, IsMinCluster μ (lview b) → IsMinCluster μ (lview b')) := by
+  unfold reverseGroupsG
+  by_cases h0 : b.len = 0
+  · refine ⟨b, by simp [h0]; rfl, hin, rfl, ValuesSubset.refl _, ?_, ?_, fun _ h => h⟩
+    · intro _ i j a c _ ha _
+      have := cl?_some_lt ha
+      rw [hin.lview, h0] at this; simp at this
+    · intro _ i j a c _ ha _
+      have := cl?_some_lt ha
+      rw [hin.lview, h0] at this; simp at this
+  · have hb0 : (b.len == 0) = false := by simpa using h0
+    simp only [hb0, Bool.false_eq_true, if_false]
+    obtain ⟨b1, s1, i1, hr, hin1, l1, lv1, hs1, hi1, hk1⟩ :=
+      revGroupsLoop_merge hg b.len b 0 1 hin hl (by omega) (by omega) (by omega)
+    simp only [hr, ok_bind, if_true]
+    obtain ⟨b2, hb2, hin2, l2, lv2, hk2⟩ := mergeThenReverse b1 s1 i1 hin1 hs1 (by rw [l1]; exact hi1) (by rw [lv1]; exact hl) hg
+    cases hm : b1.mergeClusters s1 i1 with
+    | error err => rw [hm] at hb2; cases hb2
+    | ok bm =>
+      rw [hm] at hb2
+      simp only [ok_bind] at hb2 ⊢
+      rw [hb2]
+      simp only [ok_bind]
+      obtain ⟨b3, hb3, hin3, l3, _, hrev⟩ := reverse_spec b2 hin2
+      have hk := hk1.trans hk2
+      refine ⟨b3, hb3, hin3, by rw [l3, l2, l1], ?_, ?_, ?_, ?_⟩
+      · rw [hrev]; exact (valuesSubset_reverse _).trans hk.subset
+      · intro h; rw [hrev]; exact nonIncr_reverse (hk.nonDecr h)
+      · intro h; rw [hrev]; exact nonDecr_reverse (hk.nonIncr h)
+      · intro μ h; rw [hrev]; exact isMin_reverse (hk.min μ h)
 
 
 end RbModel.Buf
